@@ -951,6 +951,16 @@ func (hash *SexpHash) ShortName() string {
 }
 
 func (hash *SexpHash) SexpString(ps *PrintState) string {
+	if ps == nil {
+		ps = NewPrintState()
+	}
+	if ps.GetSeen(hash) {
+		// a hash that contains itself: (hset h k: h)
+		return "{...}"
+	}
+	ps.SetSeen(hash, "SexpHash")
+	defer ps.Unsee(hash)
+
 	indInner := ""
 	indent := ps.GetIndent()
 	innerPs := ps.AddIndent(4) // generates a fresh new PrintState
